@@ -301,7 +301,39 @@ def case_two_megacomplexes(case):
     return core.ok(key=[case["weights"], case["order"], bool(case.get("swap"))], outcome=len(vs), violations=vs)
 
 
-CASE_FUNCS = {"structure": case_structure, "seq_par": case_seq_par, "result": case_result, "two_megacomplexes": case_two_megacomplexes}
+def case_two_megacomplexes_result(case):
+    """result of a dataset with two decay megacomplexes that share a compartment: for each megacomplex
+    DAS_mc = SAS[species of the megacomplex, in the order of its A-matrix] x A_mc^T"""
+    from glotaran.optimization.optimize import optimize
+
+    order = case["order"]
+    names = ["s1", "s2", "s3"]
+    md = {"megacomplex": {"mc1": {"type": "decay", "k_matrix": ["k1"]}, "mc2": {"type": "decay", "k_matrix": ["k2"]}},
+          "k_matrix": {"k1": {"matrix": {"s3<-s1": "k.1"}}, "k2": {"matrix": {"s3<-s2": "k.2", "s3<-s3": "k.3"}}},
+          "initial_concentration": {"j": {"compartments": [names[i] for i in order], "parameters": [f"j.{names[i]}" for i in order]}},
+          "dataset": {"d1": {"megacomplex": ["mc1", "mc2"] if not case.get("swap") else ["mc2", "mc1"], "initial_concentration": "j"}}}  # fmt: skip
+    vals = {"k.1": 1.1, "k.2": 0.4, "k.3": 0.07, "j.s1": 0.6, "j.s2": 0.4, "j.s3": 0.0}
+    t = np.linspace(0.0, 10.0, 25)
+    data = {"d1": B.noisy_dataset(t, np.array([1.0, 2.0, 3.0]), seed=1, salt="c04mc")}
+    scheme = B.make_scheme(md, vals, data, options={l: {"vary": False} for l in vals if l.startswith("j.")})
+    with warnings.catch_warnings():
+        warnings.simplefilter("ignore")
+        d = optimize(scheme, verbose=False, raise_exception=True).data["d1"]
+    vs = []
+    sas = d["species_associated_spectra"]
+    for mc in ("mc1", "mc2"):
+        A = d[f"a_matrix_{mc}"]
+        species = [str(x) for x in A.coords[f"species_{mc}"].values]
+        want = sas.sel(species=species).values @ A.values.T
+        got = d[f"decay_associated_spectra_{mc}"].values
+        if got.shape != want.shape or np.abs(got - want).max() > 1e-10 * max(1.0, np.abs(want).max()):
+            vs.append(V("das-is-not-sas-times-a-matrix-transposed/two-megacomplexes", megacomplex=mc, species=species,
+                        max_abs=float(np.abs(got - want).max()) if got.shape == want.shape else None))  # fmt: skip
+    return core.ok(key=[case["order"], bool(case.get("swap"))], outcome=len(vs), violations=vs)
+
+
+CASE_FUNCS = {"structure": case_structure, "seq_par": case_seq_par, "result": case_result, "two_megacomplexes": case_two_megacomplexes,
+              "two_megacomplexes_result": case_two_megacomplexes_result}  # fmt: skip
 
 
 def structures(n, max_entries=None):
@@ -372,6 +404,7 @@ def run(run: core.Run):
             for swap in (False, True):
                 tm.append({"weights": weights, "order": list(order), "swap": swap})
     run.map("two_megacomplexes", tm)
+    run.map("two_megacomplexes_result", [{"order": list(o), "swap": sw} for o in itertools.permutations(range(3)) for sw in (False, True)])
     rs = []
     for n in (1, 2, 3):
         sts = structures(n) if n < 3 else [s for s in structures(3) if len(s) <= (3 if quick else 4)]
